@@ -58,20 +58,37 @@ class Recorder:
         pr = self.obs.project()
         self.last = pr
         st = {"fs": {}, "cf": {}, "del": {}, "info": [], "par": []}
+        st["lk"], st["dr"], st["clk"], st["cdr"] = {}, {}, {}, {}
         for d in self.D:
-            fl = {}
+            fl, lk, dr = {}, {}, []
+            # names sharing an inode: the first in scan (alphabetical) order is the file, the others are hard links to it
+            byino = {}
+            for name, f in sorted(pr["fs"].get(d, {}).items(), key=lambda x: x[0].encode("latin1")):
+                if f["k"] == "f" and f.get("nl", 1) > 1:
+                    byino.setdefault(f["ino"], []).append(name)
+            hard = {n: v[0] for v in byino.values() for n in v[1:]}
             for name, f in pr["fs"].get(d, {}).items():
-                if f["k"] != "f":
-                    continue
-                self.names.add(name)
-                fl[name] = {"b": [self.note_val(v) for v in f["b"]], "mt": f["mt"], "sz": f["sz"]}
+                if f["k"] == "l":
+                    lk[name] = ["sym", f["to"]]
+                elif f["k"] == "d":
+                    dr.append(name)
+                elif name in hard:
+                    lk[name] = ["hard", hard[name]]
+                else:
+                    self.names.add(name)
+                    fl[name] = {"b": [self.note_val(v) for v in f["b"]], "mt": f["mt"], "sz": f["sz"]}
             st["fs"][d] = fl
+            st["lk"][d] = lk
+            st["dr"][d] = sorted(dr)
         c = pr["cont"][0]
         if not isinstance(c, dict):
             # snapraid loads the first copy that exists
             c = next((x for x in pr["cont"] if isinstance(x, dict)), None)
         cs = self._cstate(c)
         st["cf"], st["del"], st["info"] = cs["cf"], cs["del"], cs["info"]
+        for d in self.D:
+            st["clk"][d] = dict(c["links"].get(d, {})) if c else {}
+            st["cdr"][d] = list(c["dirs"].get(d, [])) if c else []
         st["alts"] = [(self._cstate(x) if isinstance(x, dict) else {"cf": {}, "del": {}, "info": [], "bad": x})
                       for x in pr["cont"]]
         for l in range(self.a.conf.np):
@@ -352,6 +369,23 @@ class Recorder:
         self.lines.append({"e": "Scrub", "args": {"plan": plan, "now": self.now(), "present": present, "flags": list(flags)},
                            "state": self.state(), "out": out})
         return r, out
+
+    def list(self):
+        r = self.a.run("list")
+        self.last_result = r
+        files = [[str(self.a.conf.disk_names.index(t[1])), t[2], int(t[3]), int(t[4]) - BASE_TIME, int(t[5])]
+                 for t in r.tags if t[0] == "file" and len(t) >= 6]
+        links = [[str(self.a.conf.disk_names.index(t[1])), t[2], t[0][5:], t[3]] for t in r.tags
+                 if t[0] in ("link_symlink", "link_hardlink") and len(t) >= 4]
+        out = {"rc": r.rc, "files": files, "links": links}
+        self.lines.append({"e": "List", "args": {}, "state": self.state(), "out": out})
+        return r, out
+
+    def touch(self):
+        r = self.a.run("touch")
+        self.last_result = r
+        self.lines.append({"e": "Touch", "args": {}, "state": self.state(), "out": {"rc": r.rc}})
+        return r, {"exit": "ok" if r.rc == 0 else "rc%d" % r.rc}
 
     def diff(self):
         r = self.a.run("diff")
